@@ -26,7 +26,7 @@ COMPONENTS = {'real': ['yldprolog.engine Variable/Functor get_value and to_pytho
               'stub': ['consumer holding the open unifications and saved values'],
               'oracle': ['substitution-stack model (ypsim.terms) rendered through the documented to_python mapping']}
 REQUIRED_PROBES = ('term_built_and_kept', 'fault_recursion_inside_get_value', 'fault_recursion_inside_to_python', 'save_ground_compound', 'save_outer_older_than_inner', 'read_after_pop', 'program_collect_idiom', 'program_findall', 'program_assert',
-                   'pop_close', 'pop_drop', 'pop_resume', 'pop_throw', 'finished_generator_closed_or_dropped_later', 'saved_value_used_as_goal', 'side_advanced_or_ended_while_younger_generators_suspended', 'program_bounded_projection_fault')
+                   'pop_close', 'pop_drop', 'pop_resume', 'pop_throw', 'finished_generator_closed_or_dropped_later', 'saved_value_used_as_goal', 'chain_of_variable_linked_cells', 'stored_through_assert_fact', 'side_advanced_or_ended_while_younger_generators_suspended', 'program_bounded_projection_fault')
 
 
 def ground_term(rng, depth):
@@ -106,7 +106,10 @@ def gen(seed, tier):
             ops.append(['FAULT', rng.choice(('get_value', 'to_python')), rng.choice(('list', 'nest'))])
         elif k < 0.14:
             # a compound term over the pool variables built now and read at later events (after bindings changed)
-            ops.append(['MKTERM', TM.J(TM.rnd_term(rng, nv, 2, p_leaf=0.2, p_var=0.7, lists=rng.random() < 0.4))])
+            if rng.random() < 0.25:
+                ops.append(['MKTERM', TM.J(TM.build_big(rng.choice(('list', 'open', 'wide', 'nest')), TM.big_leaves(rng, nv, rng.choice((20, 26, 41, 66)), p_var=0.1)))])
+            else:
+                ops.append(['MKTERM', TM.J(TM.rnd_term(rng, nv, 2, p_leaf=0.2, p_var=0.7, lists=rng.random() < 0.4))])
         elif k < 0.17:
             # a unification that already ended by exhaustion is closed / dropped only now (a no-op for a generator)
             ops.append(['REAP', rng.randrange(4), rng.choice(('close', 'drop'))])
@@ -122,6 +125,15 @@ def gen(seed, tier):
             t1 = ('v', rng.randrange(nv))
             t2 = TM.rnd_term(rng, nv, 2, p_var=0.4) if rng.random() < 0.7 else ('a', rng.choice('ab'))
             ops.append(['PUSH', TM.J(t1), TM.J(t2)])
+    if rng.random() < 0.12:
+        # a long list built cell by cell: every tail is a variable of its own bound by a later unification
+        ops.insert(rng.randrange(len(ops) + 1), ['CHAIN', rng.randrange(nv), rng.choice((20, 40, 101, 120, 150))])
+        ops.append(['SAVE', ['v', rng.randrange(nv)]])
+    prefill = rng.choice((0, 0, 33, 40))
+    if rng.random() < 0.3:
+        # values stored through the assert_fact API (into a predicate that already holds `prefill` facts) and read back at the end
+        for _ in range(rng.randrange(1, 4)):
+            ops.insert(rng.randrange(len(ops) + 1), ['ASSERTV', ['v', rng.randrange(nv)] if rng.random() < 0.6 else TM.J(TM.rnd_term(rng, nv, 2, p_var=0.6, lists=False))])
     if rng.random() < 0.35:
         # independent enumerations (over variables of their own, on this engine or another one) suspended at an answer
         # while the history goes on, and advanced / ended in any order relative to the frames of the history
@@ -144,7 +156,7 @@ def gen(seed, tier):
         # a second clause so that the enumeration advances past the first answer
         program = {'source': 'p(%s) :- %s.\np(second).\nt(L) :- findall(X, p(X), L).\nst :- p(X), assertz(s(X)), never_defined(X).\nst.\n' % (head, body),
                    'target': TM.J(target), 'equations': len(eqs)}
-    return {'nv': nv, 'ops': ops, 'program': program}
+    return {'nv': nv, 'ops': ops, 'program': program, 'prefill': prefill}
 
 
 def show_op(op):
@@ -154,6 +166,10 @@ def show_op(op):
         return 'SAVE %s' % TM.show(TM.T(op[1]))
     if op[0] == 'MKTERM':
         return 'MKTERM %s (built now, read at every later event)' % TM.show(TM.T(op[1]))
+    if op[0] == 'CHAIN':
+        return 'CHAIN _V%d = list of %d cells, each tail a variable of its own bound by the next unification (one frame)' % (op[1], op[2])
+    if op[0] == 'ASSERTV':
+        return 'ASSERTV assert_fact(st(%s)) as it is now' % TM.show(TM.T(op[1]))
     if op[0] == 'REAP':
         return 'REAP %s a unification generator that ended earlier by exhaustion (#%d)' % (op[2], op[1])
     if op[0] == 'ASGOAL':
@@ -202,6 +218,19 @@ def pyj(x):
     return x
 
 
+class ChainFrame:
+    """one frame of the history made of many open unifications (ended together, newest first)"""
+
+    def __init__(self, tasks):
+        self.tasks = tasks
+        self.done = False
+
+    def close(self):
+        for t in reversed(self.tasks):
+            t.close()
+        self.done = True
+
+
 def execute(plan):
     from yldprolog.engine import YP, unify, to_python, get_value
     log = core.Log(keep=plan.get('_keep', False))
@@ -211,6 +240,9 @@ def execute(plan):
     stack = []
     saved = []          # (value, to_python at save time (model), description)
     kept_terms = []     # (model term, engine term) built by MKTERM
+    asserted = []       # model terms stored through assert_fact, in order
+    for i_ in range(plan.get('prefill', 0)):
+        yp.assert_fact(yp.atom('st'), [yp.functor('pre', [i_])])
     finished = []       # unification generators that ended by exhaustion and are still referenced by the consumer
     sides = []          # [task, (A, B), row index] independent enumerations of sf/2
     SF = [('one', 1), ('two', 2), ('three', 3)]
@@ -245,6 +277,11 @@ def execute(plan):
             want_ = TM.canon([TM.resolve(mt_, s)] + [TM.resolve(('v', i), s) for i in range(len(pool))])
             if got_ != want_:
                 log.violation('term-built-earlier-misses-binding', {'at': tag, 'term': TM.show(mt_), 'engine': TM.show(got_[0]), 'model': TM.show(want_[0])})
+                return False
+            # ... also through the public get_value of the term object itself (which returns a resolved copy)
+            gv_ = TM.canon([TM.observe(get_value(et_), ids_)] + [TM.observe(v, ids_) for v in pool.vars])
+            if gv_ != want_:
+                log.violation('term-built-earlier-misses-binding', {'at': tag, 'term': TM.show(mt_), 'get_value': TM.show(gv_[0]), 'model': TM.show(want_[0])})
                 return False
             r_ = TM.resolve(mt_, s)
             if TM.py_defined(r_):
@@ -323,8 +360,11 @@ def execute(plan):
                     log.ev('noop')
                     continue
                 task, s_before = stack.pop()
-                end_task(task, op[1])
-                if op[1] == 'resume' and len(finished) < 4:
+                if isinstance(task, ChainFrame):
+                    task.close()
+                else:
+                    end_task(task, op[1])
+                if op[1] == 'resume' and len(finished) < 4 and not isinstance(task, ChainFrame):
                     finished.append(task)
                 task = None
                 log.count('pop_' + op[1])
@@ -335,6 +375,39 @@ def execute(plan):
                     break
                 if saved:
                     log.count('read_after_pop')
+            elif kind == 'CHAIN':
+                vi = op[1] % len(pool)
+                if len(stack) >= 90 or TM.walk(('v', vi), s) != ('v', vi):
+                    log.ev('noop')
+                    continue
+                n_ = op[2]
+                tasks_ = []
+                cur_ = pool.vars[vi]
+                ok_ = True
+                for j_ in range(n_):
+                    nxt_ = yp.variable() if j_ < n_ - 1 else yp.ATOM_NIL
+                    t_ = GenTask(unify(cur_, yp.listpair(yp.atom('e'), nxt_)))
+                    if not t_.step():
+                        ok_ = False
+                        break
+                    tasks_.append(t_)
+                    cur_ = nxt_
+                if not ok_:
+                    log.count('precondition_lost')
+                    break
+                s2 = dict(s)
+                s2[vi] = TM.mklist([('a', 'e')] * n_)
+                stack.append((ChainFrame(tasks_), s))
+                s = s2
+                log.count('chain_of_variable_linked_cells')
+                log.ev('chain', vi, n_)
+            elif kind == 'ASSERTV':
+                t = pool.norm(TM.T(op[1]))
+                mt = TM.resolve(t, s)
+                yp.assert_fact(yp.atom('st'), [pool.build(t)])
+                asserted.append(mt)
+                log.count('stored_through_assert_fact')
+                log.ev('assertv', TM.show(mt))
             elif kind == 'REAP':
                 if not finished:
                     log.ev('noop')
@@ -453,6 +526,20 @@ def execute(plan):
             task, s = stack.pop()
             task.close()
             if not check_now('final unwinding'):
+                ok_all = False
+        if ok_all and asserted:
+            # what was stored through assert_fact denotes what the argument denoted at that moment (variables renamed apart)
+            x_ = yp.variable()
+            got_ = []
+            for _ in yp.query('st', [x_]):
+                got_.append(TM.canon([TM.observe(x_, {})])[0])
+            got_ = got_[plan.get('prefill', 0):]
+            want_ = [TM.canon([m_])[0] for m_ in asserted]
+            log.ev('stored', len(got_))
+            if got_ != want_:
+                i_ = next((k for k, (a_, b_) in enumerate(zip(got_ + [None], want_ + [None])) if a_ != b_), 0)
+                log.violation('asserted-term-not-dereferenced', {'stored_no': i_, 'facts_before_it': plan.get('prefill', 0) + i_, 'stored': None if i_ >= len(got_) else TM.show(got_[i_]),
+                                                                 'value_when_asserted': None if i_ >= len(want_) else TM.show(want_[i_])})
                 ok_all = False
         if ok_all and plan.get('program'):
             run_program(plan['program'], log)
